@@ -146,12 +146,8 @@ def _run_reader(stream, log, on_err, validate, parsed, quit, handler, labelmsm, 
 
     proxy = RecProxy(stream, log) if wrap else stream
     rdr = RTCMReader(proxy, validate=validate, quitonerror=quit, parsed=parsed, labelmsm=labelmsm, errorhandler=on_err if handler else None)
-    if not wrap:  # reader wrapped the object itself (socket): put the proxy at the same interface
-        inner = rdr.datastream
-        try:
-            rdr._stream = RecProxy(inner, log)  # pylint: disable=protected-access
-        except Exception as err:  # pragma: no cover
-            raise MachineryFailure(f"cannot place the recording proxy: {err}")
+    if not wrap:
+        raise MachineryFailure("run_reader needs a stream it can wrap (no private attributes of the reader are touched)")
     events = []
     results = []
     libs = decode_rec.lib_classes()
